@@ -87,6 +87,11 @@ class Linear:
                 if (name, i) in TERMINAL_CONSUMERS:
                     m = {1}
                     descs.append("%s(arg %d)" % (name, i))
+                elif (name, i) in DEFERRED_CLOSURE_CONSUMERS:
+                    # the callable itself is queued as a command (bevy's blanket `impl Command for F: FnOnce(&mut World)` calls
+                    # it exactly once when applied): same as queueing `move |w| (f)(w)`
+                    m = {1}
+                    descs.append("queued as a command with %s" % name)
                 elif cb is not None:
                     callee_res = self.param_res(cb, i)
                     if callee_res is not None:
